@@ -534,7 +534,7 @@ type earlySub struct {
 func (s *earlySub) Cache() kcache.CacheReader   { return nil }
 func (s *earlySub) Ready() <-chan struct{}      { return s.ready }
 func (s *earlySub) Events() <-chan kcache.Event { return s.ev }
-func (s *earlySub) Close()                      { s.once.Do(func() { close(s.done) }) }
+func (s *earlySub) Close()                      { s.once.Do(func() { close(s.done); close(s.ev) }) }
 func (s *earlySub) Done() <-chan struct{}       { return s.done }
 func (s *earlySub) Error() error                { return nil }
 
@@ -571,6 +571,36 @@ func (w *treeWorld) monitorProbe() {
 	m.Close()
 	w.wait()
 	w.tr.stats["act:monitor-probe"]++
+}
+
+// fsubProbe: a filtered subscription on a home-made parent that delivers events but never becomes ready: whatever is
+// refiltered meanwhile, nothing is cached, nothing is published and Ready() stays open; when the parent goes away
+// the subscription is done
+func (w *treeWorld) fsubProbe() {
+	es := &earlySub{ready: make(chan struct{}), done: make(chan struct{}), ev: make(chan kcache.Event, 8)}
+	fs := kcache.VerifNewFilterSubscription(&kv.Log{Hook: w.hook}, es, kv.Pick(w.r, treeFilters()).Build(), w.r.Chance(1, 2))
+	if w.r.Chance(2, 3) {
+		fs.Refilter(kv.Pick(w.r, treeFilters()).Build())
+	}
+	for i := 1 + w.r.Intn(4); i > 0; i-- {
+		k := kv.Pick(w.r, treeKeys)
+		es.ev <- kcache.NewEvent(kcache.EventTypeCreate, kv.Obj{Kind: "pod", NS: k[0], Name: k[1], RV: fmt.Sprint(i), Labels: kv.Pick(w.r, treeLabels)}.Build())
+	}
+	if w.r.Chance(1, 2) {
+		fs.Refilter(kv.Pick(w.r, treeFilters()).Build())
+	}
+	w.wait()
+	cached := -1
+	if l, err := fs.Cache().List(); err == nil {
+		cached = len(l)
+	}
+	ready, events := isClosed(fs.Ready()), len(fs.Events())
+	es.Close()
+	w.wait()
+	w.tr.line(kv.L("fsubprobe", kv.Bool(ready), fmt.Sprint(events), fmt.Sprint(cached), kv.Bool(isClosed(fs.Done()))))
+	fs.Close()
+	w.wait()
+	w.tr.stats["act:fsub-probe"]++
 }
 
 // flood: up to EventBufsiz/4 server events without waiting in between
@@ -948,6 +978,9 @@ func runTreeScenario(t *testing.T, tr *tracer, idx int, seed uint64, mode string
 		kinds := []string{"sub", "subf", "subd", "clone", "clonef", "cloned", "mon"}
 		if r.Chance(1, 8) {
 			w.monitorProbe()
+		}
+		if r.Chance(1, 8) {
+			w.fsubProbe()
 		}
 		if gated {
 			for i := r.Intn(5); i > 0; i-- {
